@@ -2,6 +2,7 @@ package core
 
 import (
 	"fmt"
+	"os"
 	"strings"
 )
 
@@ -185,6 +186,12 @@ func ReplayHistory(fresh func() Instance, hist []string) (string, bool) {
 	for i, op := range hist {
 		v := inst.Apply(op)
 		fmt.Fprintf(&sb, "step %d: %s\n", i, op)
+		if os.Getenv("VERIF_DEBUG") != "" && v == nil {
+			fmt.Fprintf(&sb, "      enabled now: %v\n", inst.Enabled())
+			if oc, ok := inst.(Outcomer); ok {
+				fmt.Fprintf(&sb, "      outcome: %s\n", oc.LastOutcome())
+			}
+		}
 		if v != nil {
 			fmt.Fprintf(&sb, "  -> %s\n     %s\n", v.Signature, v.Detail)
 			return sb.String(), true
